@@ -326,6 +326,15 @@ func ModelTask(w *IntegWorld, t *TaskSpec) *TaskExpect { return ModelTaskFor(w, 
 // ModelTaskFor: the execution of t on behalf of `who` (per-stage plans of a shared task).
 func ModelTaskFor(w *IntegWorld, t *TaskSpec, who string) *TaskExpect {
 	x := &TaskExpect{OptionalFrom: -1}
+	if cs := w.Ctx(t.Context); t.Context != "" && cs != nil {
+		for k := 0; k < cs.NUp; k++ {
+			if planExit(w.Plan(execID("ctx:"+cs.Name, "up", k, ""))) != 0 {
+				// the context cannot be brought up: the task fails without running anything
+				x.Failed = true
+				return x
+			}
+		}
+	}
 	if t.Cond {
 		id := execID(t.Name, "cond", 0, "")
 		x.Seq = append(x.Seq, id)
